@@ -243,6 +243,12 @@ pub fn c04_families(tier: Tier) -> Vec<Family> {
             progs.push(mk(Init::Present, vec![vec![*g], vec![*o]], K, K, keys.clone(), Policy::None));
         }
     }
+    // the version the guarded command read is deleted and the key stored afresh in between: the new
+    // item is a different one, whatever token it got (ABA)
+    for g in guarded {
+        progs.push(mk(Init::Present, vec![vec![g], vec![T::Del, T::Set]], K, K, keys.clone(), Policy::None));
+        progs.push(mk(Init::Present, vec![vec![g], vec![T::Del, T::Add]], K, K, keys.clone(), Policy::None));
+    }
     fams.push(Family { name: "2x1/rmw-with-cas".into(), programs: progs, opts: opts(if tier == Tier::Quick { 3 } else { 64 }, tier) });
     fams
 }
